@@ -1,6 +1,10 @@
 package tds
 
-import "errors"
+import (
+	"errors"
+
+	"github.com/SAP/go-dblib/asetypes"
+)
 
 // C07: incomplete package data is always reported as "not enough bytes".
 //
@@ -80,7 +84,7 @@ func HarnessC07_LoginAck()     { c07Generic(TDS_LOGINACK, nil, c07N(14, 20)) }
 func HarnessC07_Msg()          { c07Generic(TDS_MSG, nil, c07N(6, 6)) }
 func HarnessC07_ParamFmt()     { c07Generic(TDS_PARAMFMT, nil, c07N(10, 16)) }
 func HarnessC07_ParamFmt2()    { c07Generic(TDS_PARAMFMT2, nil, c07N(16, 26)) }
-func HarnessC07_RowFmt()       { c07Generic(TDS_ROWFMT, nil, c07N(14, 24)) }
+func HarnessC07_RowFmt()       { c07Generic(TDS_ROWFMT, nil, c07N(11, 16)) }
 func HarnessC07_RowFmt2()      { c07Generic(TDS_ROWFMT2, nil, c07N(18, 26)) }
 func HarnessC07_Capability()   { c07Generic(TDS_CAPABILITY, nil, c07N(7, 10)) }
 func HarnessC07_EnvChange()    { c07Generic(TDS_ENVCHANGE, nil, c07N(10, 16)) }
@@ -99,3 +103,24 @@ func HarnessC07_CurOpen()      { c07Generic(TDS_CUROPEN, nil, c07N(10, 14)) }
 func HarnessC07_CurFetch()     { c07Generic(TDS_CURFETCH, nil, c07N(12, 16)) }
 func HarnessC07_CurUpdate()    { c07Generic(TDS_CURUPDATE, nil, c07N(12, 16)) }
 func HarnessC07_CurDelete()    { c07Generic(TDS_CURDELETE, nil, c07N(10, 14)) }
+
+// PARAMS / ROW data after a fixed format (value readers incl. text pointers)
+func c07Fmt(types ...asetypes.DataType) *ParamFmtPackage {
+	var fs []FieldFmt
+	for _, t := range types {
+		f, err := LookupFieldFmt(t)
+		vfAssert(err == nil, "harness: field format")
+		fs = append(fs, f)
+	}
+	return NewParamFmtPackage(false, fs...)
+}
+
+func HarnessC07_ParamsInt4Varchar() {
+	c07Generic(TDS_PARAMS, c07Fmt(asetypes.INT4, asetypes.VARCHAR), c07N(8, 10))
+}
+func HarnessC07_ParamsIntNText() {
+	c07Generic(TDS_PARAMS, c07Fmt(asetypes.INTN, asetypes.TEXT), c07N(14, 16))
+}
+func HarnessC07_ParamsLongBinary() {
+	c07Generic(TDS_PARAMS, c07Fmt(asetypes.LONGBINARY), c07N(7, 9))
+}
